@@ -725,8 +725,18 @@ def _r2_jacobian(ctx):
                         if isinstance(t, ast.Name):
                             canon[t.id] = "xi%d" % (d_ + 1)
 
+        # single-definition temporaries shared by the entries (eta1 = 1 - xi1 ...) are resolved through their definition
+        counts_ = {}
+        for s_ in walk_function(comp.node):
+            if isinstance(s_, ast.Assign) and len(s_.targets) == 1 and isinstance(s_.targets[0], ast.Name):
+                counts_.setdefault(s_.targets[0].id, []).append(s_.value)
+        tmp_env = {k_: v_[0] for k_, v_ in counts_.items() if len(v_) == 1 and k_ not in canon and k_ not in jdefs and
+                   isinstance(v_[0], (ast.BinOp, ast.UnaryOp, ast.Constant, ast.Name))}
+
         def _atom_sym(e, canon=canon):
             if isinstance(e, ast.Name):
+                if e.id in tmp_env and e.id not in canon:
+                    return None
                 return canon.get(e.id, "?" + e.id)
             return None
         for i in range(3):
@@ -738,7 +748,7 @@ def _r2_jacobian(ctx):
                 cexpr = s.value if isinstance(cell, ast.Name) else cell
                 cname = cell.id if isinstance(cell, ast.Name) else "entry %d,%d of the literal" % (i + 1, j + 1)
                 try:
-                    got = to_nf(cexpr, atom=_atom_sym)
+                    got = to_nf(cexpr, atom=_atom_sym, env=tmp_env)
                 except NFUnsupported as e:
                     raise AnalysisError("%s: %s outside the normal-form fragment: %s" % (shape, cname, e))
                 want = RF.const(0)
